@@ -138,7 +138,7 @@ func compareRPMVersionString(a, b string) int {
 	i, j := 0, 0
 
 	for i < len(a) || j < len(b) {
-		// Skip separators (. + - ^ _)
+		// Skip separators (. + - _)
 		for i < len(a) && isSeparator(rune(a[i])) {
 			i++
 		}
@@ -163,15 +163,37 @@ func compareRPMVersionString(a, b string) int {
 			continue
 		}
 
+		// Caret (^) sorts after the end of the string but before any
+		// further segment: 1.0 < 1.0^git1 < 1.0.1.
+		aCaret := i < len(a) && a[i] == '^'
+		bCaret := j < len(b) && b[j] == '^'
+		if aCaret || bCaret {
+			if i >= len(a) {
+				return -1
+			}
+			if j >= len(b) {
+				return 1
+			}
+			if !aCaret {
+				return 1
+			}
+			if !bCaret {
+				return -1
+			}
+			i++
+			j++
+			continue
+		}
+
 		// Extract non-digit segments
 		iStart := i
-		for i < len(a) && !unicode.IsDigit(rune(a[i])) && !isSeparator(rune(a[i])) && a[i] != '~' {
+		for i < len(a) && !unicode.IsDigit(rune(a[i])) && !isSeparator(rune(a[i])) && a[i] != '~' && a[i] != '^' {
 			i++
 		}
 		aNonDigit := a[iStart:i]
 
 		jStart := j
-		for j < len(b) && !unicode.IsDigit(rune(b[j])) && !isSeparator(rune(b[j])) && b[j] != '~' {
+		for j < len(b) && !unicode.IsDigit(rune(b[j])) && !isSeparator(rune(b[j])) && b[j] != '~' && b[j] != '^' {
 			j++
 		}
 		bNonDigit := b[jStart:j]
@@ -207,7 +229,7 @@ func compareRPMVersionString(a, b string) int {
 
 // isSeparator checks if a character is a separator in RPM versions
 func isSeparator(r rune) bool {
-	return r == '.' || r == '+' || r == '-' || r == '^' || r == '_'
+	return r == '.' || r == '+' || r == '-' || r == '_'
 }
 
 // compareRPMNonDigits compares non-digit segments with RPM-specific rules
